@@ -371,7 +371,9 @@ func (g *seqGen) creator() {
 	i := len(g.sc.Calls)
 	a := arena(i)
 	dirs := g.refsOf("dir")
-	switch k := uni(t, "creator", 0, 9); {
+	switch k := uni(t, "creator", 0, 10); {
+	case k == 10: // the guest closes a standard stream
+		g.add(SeqCall{Fn: "fd_close", Args: []uint64{uint64(pick(t, "cstd", []uint32{0, 0, 1, 2}))}}, "", "")
 	case k <= 2: // open a directory of the temp-dir mount
 		p := pick(t, "cdir", []string{"d0", "d0/sub", "big", "./d0", "d0/", "d0/../d0"})
 		g.add(g.open(-1, fdTmp, p, 2, 0), "dir", p)
@@ -431,7 +433,14 @@ func (g *seqGen) dependent() {
 	child := func() string {
 		return pick(t, "dchild", []string{"g", "sub", "e03", "b.txt", ".", "esc", "e00", "sub/x", "c.txt"})
 	}
-	switch k := uni(t, "dependent", 0, 13); k {
+	switch k := uni(t, "dependent", 0, 14); k {
+	case 14: // poll for readability of an open descriptor (polled through descriptor 0 by the host)
+		sub := make([]byte, 48)
+		binary.LittleEndian.PutUint64(sub, 0x3333)
+		sub[8] = 1 // fd_read
+		binary.LittleEndian.PutUint32(sub[16:], uint32(pick(t, "dpollfd", []uint32{fdTmp, fdRO, 5, 0})))
+		c := SeqCall{Fn: "poll_oneoff", Args: []uint64{uint64(a), uint64(a + 0x200), 1, uint64(a + 0x100)}, Mem: []Piece{{Off: a, Hex: hex.EncodeToString(sub)}}}
+		g.add(c, "", "")
 	case 0, 1: // stat a path relative to the opened directory
 		r, fd := ref(dirs)
 		p := child()
